@@ -711,4 +711,57 @@ theorem parse_print_registry (t : Item) (h : RegLeaves t) :
   parse_print_simple Instr.isName t (reg_simple t h)
 
 
+/-! ## floats print as one word (so the tokens of a printed tree with floats are right, for the print-parse-print class) -/
+
+/-- no whitespace character -/
+def noWs (l : List Char) : Bool := l.all fun c => !isWs c
+
+theorem wsFree_iff (l : List Char) : wsFree l = true ↔ l ≠ [] ∧ noWs l = true := by
+  cases l <;> simp [wsFree, noWs]
+
+theorem noWs_append (a b : List Char) : noWs (a ++ b) = (noWs a && noWs b) := by simp [noWs]
+
+theorem noWs_natRepr (n : Nat) : noWs (toString n).toList = true :=
+  ((wsFree_iff _).mp (wsFree_natRepr n)).2
+
+theorem noWs_replicate_zero (k : Nat) : noWs (List.replicate k '0') = true := by
+  simp only [noWs, List.all_eq_true, List.mem_replicate]
+  intro c hc; rw [hc.2]; decide
+
+theorem noWs_padLeft (s : String) (n : Nat) (h : noWs s.toList = true) :
+    noWs (F32.padLeft s n '0').toList = true := by
+  simp only [F32.padLeft, String.toList_append, String.toList_ofList, noWs_append, noWs_replicate_zero, h, Bool.and_self]
+
+theorem wsFree_fixed_body (ip fp : Nat) :
+    wsFree (toString ip ++ "." ++ F32.padLeft (toString fp) 3 '0').toList = true := by
+  rw [wsFree_iff]
+  refine ⟨?_, ?_⟩
+  · simp only [String.toList_append, ne_eq, List.append_eq_nil_iff, not_and]
+    intro h1; exfalso
+    exact ((wsFree_iff _).mp (wsFree_natRepr ip)).1 h1.1
+  · simp only [String.toList_append, noWs_append, noWs_natRepr, noWs_padLeft _ _ (noWs_natRepr fp),
+      show noWs ".".toList = true by decide, Bool.and_self]
+
+theorem wsFree_neg_fixed_body (ip fp : Nat) :
+    wsFree ("-" ++ (toString ip ++ "." ++ F32.padLeft (toString fp) 3 '0')).toList = true := by
+  have h := wsFree_fixed_body ip fp
+  rw [wsFree_iff] at h ⊢
+  rw [String.toList_append, show "-".toList = ['-'] by decide]
+  refine ⟨by simp, ?_⟩
+  rw [noWs_append, h.2]; decide
+
+/-- **every float prints as one white-space-free word** (`{:.3}` of any f32, NaN and infinities included) -/
+theorem wsFree_float (x : Float32) : WordLeaves (.lit (.float x)) := by
+  show wsFree (F32.fmtFixed x 3).toList = true
+  unfold F32.fmtFixed
+  split
+  · decide
+  · split
+    · split <;> decide
+    · simp only [show ((3 : Nat) == 0) = false from rfl, Bool.false_eq_true, if_false]
+      split
+      · exact wsFree_neg_fixed_body _ _
+      · exact wsFree_fixed_body _ _
+
+
 end Pushr.C11
